@@ -187,6 +187,37 @@ pub fn mk_inc(id: u16) -> impl Fn(u32) -> u32 + Copy + Send + 'static {
         v.wrapping_add(2)
     }
 }
+/// Call expressions that build the callee of a `->` (evaluated wherever the documented `(expr)(value)` stands: once per
+/// call of an enclosing wrapper closure, never if that closure is not called).
+pub fn mk_p2o(id: u16) -> impl Fn(u32) -> Option<u32> + Copy + Send + 'static {
+    elog(id);
+    move |v| {
+        z(id, &v);
+        if v % 3 != 0 {
+            Some(v.wrapping_add(1))
+        } else {
+            None
+        }
+    }
+}
+pub fn mk_e2r(id: u16) -> impl Fn(u8) -> Result<u32, u8> + Copy + Send + 'static {
+    elog(id);
+    move |e| {
+        z(id, &e);
+        if e > 4 {
+            Ok(e as u32)
+        } else {
+            Err(e.wrapping_add(2))
+        }
+    }
+}
+pub fn mk_e2e(id: u16) -> impl Fn(u8) -> u8 + Copy + Send + 'static {
+    elog(id);
+    move |e| {
+        z(id, &e);
+        e.wrapping_mul(3)
+    }
+}
 pub fn mk_pred(id: u16) -> impl Fn(&u32) -> bool + Copy + Send + 'static {
     elog(id);
     move |v| {
